@@ -17,7 +17,7 @@ open Gribi Gribi.Gen
 /-- the three outcomes of the gate as the Go function returns them -/
 def gateOut (opID : Nat) : Server.Gate → Option MResp × Bool × Option Status
   | .proceed => (none, true, none)
-  | .failed => (some (.result opID .FAILED), false, none)
+  | .failed => (some (.results [(opID, .FAILED)]), false, none)
   | .fatal t => (none, false, some (statusOf t))
 
 /-- how the model's election snapshot (sessions are numbers, "no primary" is `none`) is seen by
